@@ -37,6 +37,15 @@ func checkSize(v uint64) error {
 	return nil
 }
 
+// appendPadded writes v as a varint of exactly width bytes (width >= minimal).
+func appendPadded(b []byte, v uint64, width int) []byte {
+	for i := 0; i < width-1; i++ {
+		b = append(b, byte(v&0x7f)|0x80)
+		v >>= 7
+	}
+	return append(b, byte(v&0x7f))
+}
+
 func runC15(ctx *Ctx) {
 	// 1. finite boundary enumeration (every shard does it: cheap)
 	var bounds []uint64
@@ -122,6 +131,28 @@ func runC15(ctx *Ctx) {
 			if rapid.IntRange(0, 3).Draw(rt, "close") != 0 {
 				b = protowire.AppendTag(b, num, protowire.EndGroupType)
 			}
+		case 6:
+			// one length-delimited record (bare or inside a group) whose length
+			// prefix is written in 1..10 bytes: every decoder branch for a given
+			// prefix width sees lengths with every bit pattern in the low two groups
+			n := rapid.OneOf(rapid.IntRange(0, 600), rapid.IntRange(16000, 17000), rapid.IntRange(0, 70000)).Draw(rt, "reclen")
+			if rapid.Bool().Draw(rt, "lowbits") {
+				n = n | 0x7c | rapid.IntRange(0, 3).Draw(rt, "low2") | 0x80
+			}
+			min := protowire.SizeVarint(uint64(n))
+			width := rapid.IntRange(min, 10).Draw(rt, "prefixwidth")
+			rec := protowire.AppendTag(nil, protowire.Number(rapid.IntRange(1, 40).Draw(rt, "lnum")), protowire.BytesType)
+			rec = appendPadded(rec, uint64(n), width)
+			body := make([]byte, n)
+			for i := range body {
+				body[i] = byte(i*31 + 7)
+			}
+			rec = append(rec, body...)
+			if rapid.Bool().Draw(rt, "ingroup") {
+				g := protowire.Number(rapid.IntRange(1, 40).Draw(rt, "gnum"))
+				rec = protowire.AppendTag(append(protowire.AppendTag(nil, g, protowire.StartGroupType), rec...), g, protowire.EndGroupType)
+			}
+			b = append(rec, rapid.SliceOfN(rapid.Byte(), 0, 4).Draw(rt, "suffix")...)
 		case 7:
 			// a TREE of groups: sibling sub-groups that themselves hold groups, with
 			// equal or different numbers (a skipper's open-group bookkeeping must
